@@ -1126,7 +1126,31 @@ fn fallback_expr<'s>(arena: &mut Vec<Expr>, input: Span<'s>) -> IResult<Span<'s>
     Ok((after, result))
 }
 
+// Parentheses and brackets nest by recursion; without a limit a pathological input
+// (thousands of opening parentheses) overflows the stack instead of being reported.
+const MAX_NESTING_DEPTH: usize = 256;
+
+thread_local! {
+    static NESTING_DEPTH: std::cell::Cell<usize> = const { std::cell::Cell::new(0) };
+}
+
+struct NestingGuard;
+
+impl Drop for NestingGuard {
+    fn drop(&mut self) {
+        NESTING_DEPTH.with(|depth| depth.set(depth.get() - 1));
+    }
+}
+
 pub(crate) fn expr<'s>(arena: &mut Vec<Expr>, input: Span<'s>) -> IResult<Span<'s>, ExprId> {
+    let depth = NESTING_DEPTH.with(|depth| {
+        depth.set(depth.get() + 1);
+        depth.get()
+    });
+    let _guard = NestingGuard;
+    if depth > MAX_NESTING_DEPTH {
+        return fail().parse(input);
+    }
     fallback_expr(arena, input)
 }
 
